@@ -1,3 +1,4 @@
+import HavocVerif.Driver.C01
 import HavocVerif.Driver.C02
 import HavocVerif.Driver.C03
 import HavocVerif.Driver.C04
@@ -19,6 +20,7 @@ def stateless (f : Line → Verdict) : Stepper := ⟨Unit, (), fun _ l => ((), f
 
 def stepperFor (prop : String) : Option Stepper :=
   match prop with
+  | "C01" => some (stateless DriverC01.step)
   | "C02" => some ⟨DriverC02.St, {}, DriverC02.step⟩
   | "C03" => some ⟨DriverC03.SSt, {}, DriverC03.sstep⟩
   | "C04" => some ⟨DriverC04.St, {}, DriverC04.step⟩
